@@ -88,7 +88,7 @@ class FifoOracle(object):
             blanks = 0
         return (q + (item,), blanks)
 
-    def consume_rows(self, model, out, cur_section, own=0, lenient=False):
+    def consume_rows(self, model, out, cur_section, own=0, lenient=False, skip=None):
         """own: number of items at the tail of the queue that were pushed by the current input
         line itself (a header may legitimately precede them: delta writes the hunk header when
         the first line of the hunk arrives)."""
@@ -96,6 +96,8 @@ class FifoOracle(object):
         blanks = model[1]
         for info in obs.observe(out):
             k = info.kind
+            if skip is not None and skip(info):
+                continue
             if k == "blank":
                 if q:
                     blanks += 1
@@ -152,8 +154,8 @@ class FifoOracle(object):
         nempty = sum(1 for it in q if self._is_empty(it))
         return (tuple(q), min(blanks, nempty))
 
-    def at_eof(self, model, flush_out, cur_section, lenient=False):
-        q, blanks = self.consume_rows(model, flush_out, cur_section, lenient=lenient)
+    def at_eof(self, model, flush_out, cur_section, lenient=False, skip=None):
+        q, blanks = self.consume_rows(model, flush_out, cur_section, lenient=lenient, skip=skip)
         q = list(q)
         while q and blanks > 0 and self._is_empty(q[0]):
             q.pop(0)
@@ -285,7 +287,36 @@ class SearchA(Problem):
             out.append((b"++=======", ("theirs", o, a, t), "mc-sep"))
         else:
             out.append((b"++>>>>>>> br", ("hunk", 0, self.L, ("end", o, a, t)), "mc-end"))
+        # a region that is never closed (a file that merely contains a marker-like line): the hunk
+        # ends at the next hunk header / file / end of input, and its lines are still hunk lines
+        out.append((b"@@@ -30,2 -30,2 +30,3 @@@", ("hunk", 0, self.L, ("abort", o, a, t)), "mc-abort"))
+        out.append((b"diff --cc g.txt", ("hunk", 0, self.L, ("abort", o, a, t)), "mc-abort"))
         return out
+
+    def _region_skip(self, lines):
+        acc = []
+        for l in lines:
+            acc += expected_text(l, 2, self.ocfg, True) + expected_text(l, 2, self.ocfg, False)
+
+        def skip(info):
+            return info.kind == "mcheader" or (
+                info.kind in ("minus", "plus", "zero", "mixed")
+                and text_matches(info.text, info.exact, acc, 0, self.ocfg))
+        return skip
+
+    def _region_lines_shown(self, lines, out, what):
+        rows = []
+        for info in obs.observe(out):
+            if info.kind in ("file", "hunk", "commit"):
+                break
+            if info.kind in ("minus", "plus", "zero", "mixed"):
+                rows.append(info)
+        for l in lines:
+            acc = expected_text(l, 2, self.ocfg, True) + expected_text(l, 2, self.ocfg, False)
+            if not any(text_matches(r.text, r.exact, acc, len(l), self.ocfg) for r in rows):
+                raise ViolationError(
+                    "dropped", "line %r of a merge conflict region that is not closed before %s is "
+                    "never shown" % (l, what), expected=l.decode("utf-8", "replace"))
 
     def _hunk_headers(self, idx):
         if self.variant == "diffu-exact":
@@ -311,6 +342,12 @@ class SearchA(Problem):
                                              len(l), 0))
                 n += len(minus) + len(plus)
             return self.oracle.consume_rows(q, out, 0, own=n)
+        if kind == "mc-abort":
+            _, o, a, t = ps[3]
+            self._region_lines_shown(o + a + t, out, "the next header")
+            # rows showing region lines (their texts differ from every line outside the region) and
+            # the region's own headers are not matched against the lines pending from before it
+            return self.oracle.consume_rows(q, out, 0, skip=self._region_skip(o + a + t))
         if kind.startswith("hunk-") and kind != "hunk-header":
             k = kind[5:]
             if k == "raw":
@@ -325,6 +362,10 @@ class SearchA(Problem):
         return self.oracle.consume_rows(q, out, 0)
 
     def eof(self, model, out, ps):
+        if self.variant == "conflict" and ps[0] in ("ours", "anc", "theirs"):
+            self._region_lines_shown(ps[1] + ps[2] + ps[3], out, "end of input")
+            self.oracle.at_eof(model, out, 0, skip=self._region_skip(ps[1] + ps[2] + ps[3]))
+            return
         self.oracle.at_eof(model, out, 0)
 
 
